@@ -5,6 +5,8 @@ import (
 	"fmt"
 	"math"
 
+	"github.com/shopspring/decimal"
+
 	"go.mongodb.org/mongo-driver/bson"
 	"go.mongodb.org/mongo-driver/bson/bsontype"
 	"go.mongodb.org/mongo-driver/bson/primitive"
@@ -588,6 +590,20 @@ func numberToInt64(v interface{}) (int64, bool) {
 			return 0, false
 		}
 		return int64(math.Trunc(n)), true
+	case primitive.Decimal128:
+		// finite decimals are truncated toward zero like doubles
+		if n.IsNaN() || n.IsInf() != 0 {
+			return 0, false
+		}
+		coefficient, exponent, err := n.BigInt()
+		if err != nil {
+			return 0, false
+		}
+		integer := decimal.NewFromBigInt(coefficient, int32(exponent)).Truncate(0).BigInt()
+		if !integer.IsInt64() {
+			return 0, false
+		}
+		return integer.Int64(), true
 	default:
 		return 0, false
 	}
